@@ -218,3 +218,62 @@ def g4_no_stale_memo(prog: Program, run: Run, rule: str, patterns: Sequence[str]
 def _is_local(f: FuncInfo, name: str) -> bool:
     from ..cfg import local_names
     return name in local_names(f.node)
+
+
+# --------------------------------------------------------------------- G5
+def _truth_atoms(t: ast.AST):
+    if isinstance(t, ast.BoolOp):
+        for v in t.values:
+            yield from _truth_atoms(v)
+    elif isinstance(t, ast.UnaryOp) and isinstance(t.op, ast.Not):
+        yield from _truth_atoms(t.operand)
+    elif isinstance(t, (ast.Name, ast.Attribute, ast.NamedExpr)):
+        yield t
+
+
+def g5_absence_by_truthiness(prog: Program, run: Run, rule: str,
+                             patterns: Sequence[str]) -> int:
+    """An ``Optional`` whose payload admits falsy *values* (0, 0.0, '', b'') must be tested with
+    ``is None`` / ``is not None``; a truthiness test treats a legitimate 0 / '' as absent."""
+    from ..types import annotation_of, is_optional_value_annotation
+    n = 0
+    for f in funcs_in(prog, patterns):
+        cands = []
+        tests = set()
+        for x in walk_no_nested(f.node):
+            if isinstance(x, (ast.If, ast.While, ast.IfExp)):
+                for y in ast.walk(x.test):
+                    tests.add(id(y))
+                cands += list(_truth_atoms(x.test))
+            if isinstance(x, ast.Assert):
+                cands += list(_truth_atoms(x.test))
+        for x in walk_no_nested(f.node):
+            if isinstance(x, ast.BoolOp) and id(x) not in tests:
+                last = x.values[-1]
+                if isinstance(x.op, ast.Or) and isinstance(last, ast.Constant) and \
+                        last.value is not None and not last.value:
+                    continue  # `x or 0`: the default equals the falsy value
+                for v in x.values[:-1]:
+                    if isinstance(v, (ast.Name, ast.Attribute, ast.NamedExpr)):
+                        cands.append(v)
+        if not cands:
+            continue
+        env = TypeEnv(prog, f)
+        bad = False
+        for c in cands:
+            txt = ast.unparse(c)
+            if txt.endswith("_snref") or txt.endswith("_snpathref"):
+                continue  # names: the empty string is not a valid short name anyway
+            a = annotation_of(env, c)
+            if is_optional_value_annotation(a):
+                n += 1
+                bad = True
+                run.violation(rule, f"{f.module.rel}:{f.qual}", f"absence-by-truthiness-{txt[:40]}",
+                              f"`{txt}` (declared `{ast.unparse(a)}`) is tested by truthiness: the "
+                              "legitimate values 0, 0.0, '' and b'' are treated like an absent "
+                              "value", f"{f.module.rel}:{c.lineno}", txt)
+        if not bad:
+            n += 1
+            run.ok(rule, f"{f.module.rel}:{f.qual}",
+                   f"{len(cands)} truthiness tests, none on an Optional value type", f.loc)
+    return n
